@@ -406,7 +406,7 @@ func c19Scenario1(c *fw.Ctx, sc c19Scenario, onlyKill int) {
 		}
 		// … and a restarted process with the SAME process id (a container's pid 1, a service after a reboot) repeats
 		// the operation from whatever the killed one left behind: it must complete and leave the new state
-		if c19PidNS() {
+		{
 			if err := c19Prepare(c, sc, dir); err != nil {
 				c.Infra("prepare: " + err.Error())
 				return
@@ -428,7 +428,7 @@ func c19Scenario1(c *fw.Ctx, sc c19Scenario, onlyKill int) {
 			again, _ := c19Observe(dir, keys)
 			if exit != "0" {
 				c.Report(fmt.Sprintf("%s/repeat-with-same-pid-fails/killed-before:%s#%d", sc.Name, calls[i].name, k),
-					fmt.Sprintf("killed before %q; a restarted process with the same process id repeats the operation and it fails (exit status %s)", calls[i].line, exit), cas)
+					fmt.Sprintf("killed before %q; a restarted process (with the process id of the killed one where PID namespaces are available) repeats the operation and it fails (exit status %s)", calls[i].line, exit), cas)
 			} else {
 				for _, key := range keys {
 					if key == "version" && strings.HasPrefix(sc.Name, "transport/") {
@@ -441,7 +441,7 @@ func c19Scenario1(c *fw.Ctx, sc c19Scenario, onlyKill int) {
 					}
 					if again[key] != post[key] {
 						c.Report(fmt.Sprintf("%s/repeat-with-same-pid-differs/killed-before:%s#%d", sc.Name, calls[i].name, k),
-							fmt.Sprintf("killed before %q; a restarted process with the same process id repeated the operation successfully, but key %q reads %s instead of the new value (%s)", calls[i].line, key, c19ValClass(again[key]), c19ValClass(post[key])), cas)
+							fmt.Sprintf("killed before %q; a restarted process (with the process id of the killed one where PID namespaces are available) repeated the operation successfully, but key %q reads %s instead of the new value (%s)", calls[i].line, key, c19ValClass(again[key]), c19ValClass(post[key])), cas)
 						break
 					}
 				}
